@@ -35,7 +35,7 @@ Definition check_612 (fs : list field) : verdict :=
     | Some (d, [FB tb; FZ ec]) =>
       if negb (desc_wf d) then VSkip else
       if (ec =? 3) || (ec =? 4) then VBad 3 [FZ ec] else
-      match t2j_walk_gen fd_mark (o mod 32) (S (length tb)) d tb with
+      match t2j_walk_gen fd_mark (o mod 2048) (S (length tb)) d tb with
       | Some _ => if ec =? 0 then VOk else VDrift 2
       | None => expect 2 (negb (ec =? 0)) [FZ 1]
       end
